@@ -245,6 +245,7 @@ func runC12(c *Ctx) {
 	c.R.Floor(r3, 24)
 
 	// R4: private copies for in-process recipients
+	ruleFeatureTable(c, r3) // the recipient's identification feature is the one it announced, for that role, as true
 	const r4 = "C12.R4 in-process recipients get private copies"
 	ruleLocalCopies(c, r4)
 	c.R.Floor(r4, 8)
